@@ -30,6 +30,8 @@ type Obligation struct {
 	QueryTxt string
 	cutDecls, cutAsserts int // background prefix visible to this obligation (-1: everything)
 	enc *Enc
+	assumeIdx int // index in Script.Asserts of the fact assumed after this obligation (-1: none)
+	excluded  map[int]bool // for COVER: assertion indexes to leave out (facts assumed after obligations that failed)
 }
 
 type excEdge struct {
@@ -178,9 +180,13 @@ func (e *Enc) obligeG(guard Term, class, label string, props []string, cond Term
 	ob := &Obligation{Name: e.key + "/" + name, Class: class, Props: props, Goal: goal, Desc: desc,
 		Pos: e.posOf(pos), Expect: "unsat", FuncKey: e.key, Script: e.sc, cutDecls: len(e.sc.Decls), cutAsserts: len(e.sc.Asserts), enc: e}
 	e.obls = append(e.obls, ob)
+	ob.assumeIdx = -1
 	// after checking, the fact may be assumed downstream (standard assert-then-assume); quantified
 	// facts are not (they only slow the solvers down), except explicit proof hints
 	if !strings.Contains(goal.S, "(forall ") && !strings.Contains(goal.S, "(exists ") || class == "assert" {
+		if goal.S != "true" {
+			ob.assumeIdx = len(e.sc.Asserts)
+		}
 		e.sc.AssertNamed(goal, "assumed after obligation "+name)
 	}
 }
